@@ -16,14 +16,17 @@ import Pog.Props.Loader
     the two copies of `_get_primary_response` are the same function                        (full)    `primary_selection_agree`
     a declared 2xx status always selects a `return` arm, never an `HTTPError` raise         (full)    `declared_2xx_never_raises_passthrough`
     … and the call really returns (F58 repaired: Union dispatch included)                  (full)    `declared_2xx_returns`, `declared_2xx_union_dispatch_returns`
-    a declared 2xx response without content returns None                                    (full, distinct keys) `no_content_returns_none`
+    a declared 2xx response without content returns None …                                  (full, distinct keys) `no_content_returns_none`
+    … in a streaming method (an async generator cannot return a value) it ends the stream   (full, distinct keys; F35 repaired) `no_content_ends_stream`
     every other declared 2xx response has its own arm with its own return                   (full, distinct keys) `secondary_2xx_arm_exists`
+    … which, next to a streaming primary response, yields its value once and returns        (full, distinct keys; F35 repaired) `secondary_2xx_of_stream_yields_once`
+    the emitted method never has `return <value>` next to a `yield`: a stream plus another
+      2xx response no longer breaks the module                                              (full; F35 repaired)  `stream_with_second_2xx_module_ok`, `stream_with_second_2xx_former_witness`
     text responses (`text/*` only, plain strings) return the text sent                      (full, distinct keys; F32b repaired) `text_response_returns_text`, `text_response_former_witness`
     an NDJSON stream is iterated with `iter_ndjson`, not with the SSE parser                (full, distinct keys; F43 repaired)  `ndjson_stream_uses_iter_ndjson`, `ndjson_stream_former_witness`
     a JSON string arm of the Content-Type dispatch is decoded, not returned as raw text      (full; F69 repaired) `dispatch_str_arm`, `dispatch_json_string_former_witness`
     binary (non-streamed) responses return the bytes sent                                   ✗         `secondary_binary_parsed_as_json_counterexample`
     a secondary 2xx response with several media types dispatches on the Content-Type        ✗ (F59)   `secondary_2xx_ignores_content_type_counterexample`
-    a streaming primary response next to another 2xx response                                ✗         `stream_with_second_2xx_breaks_module_counterexample`
 -/
 /-
   C05 at the loader (Pog/Model/Loader.lean; proved in Pog/Props/Loader.lean, claimed here; `streamFormats` regenerated from the source):
@@ -97,38 +100,116 @@ theorem declared_2xx_union_dispatch_returns :
     handle .bundled exUnion ⟨200, some "text/plain; charset=utf-8".toList⟩ = .returned .text := by
   decide +kernel
 
-/-- A declared 2xx response WITHOUT content returns `None` (keys of a responses object are distinct). -/
+/-- A declared 2xx response WITHOUT content returns `None` (keys of a responses object are distinct) — unless the
+    method is an async generator (`isAsyncGen`: its primary response is streamed), which cannot return a value: there
+    the arm is a bare `return` and the iterator the caller holds ends without an item (F35 repaired; the arm used to be
+    `return None`, a SyntaxError next to the `yield`). -/
 theorem no_content_returns_none (t : TransportKind) (op : Op) (r : Reply) (hm : moduleOk op = true)
     (hnd : (op.responses.map (·.key)).Nodup) (h2 : 200 ≤ r.status ∧ r.status < 300)
     (x : Resp) (hx : x ∈ op.responses) (hk : x.key = .num r.status) (hc : x.content = []) :
-    handle t op r = .returned .none := by
+    handle t op r = .returned (if isAsyncGen op.responses then .streamEnd else .none) := by
   have hsel := select_declared_2xx op.responses r.status h2 hnd x hx hk
-  have hact : selectAction op.responses r.status = .retNone := by
-    rw [hsel]
-    split
-    · next hp =>
-      obtain ⟨n, hn⟩ := isPrimaryArm_iff.mp hp
-      have hsp := processedPrimary_spec hn
-      rw [resolveStrategy_no_content hsp.2.2.2.2 hc]
-      rfl
-    · simp [hc]
   have hb : ¬ (r.status < 200 ∨ r.status ≥ 300) := by omega
-  unfold handle
-  cases t <;> simp [hm, hb, hact, runAction]
+  by_cases hp : isPrimaryArm op.responses x = true
+  · obtain ⟨n, hn⟩ := isPrimaryArm_iff.mp hp
+    have hsp := processedPrimary_spec hn
+    have hres := resolveStrategy_no_content hsp.2.2.2.2 hc
+    have hact : selectAction op.responses r.status = .retNone := by
+      rw [hsel, if_pos hp, hres]
+      rfl
+    have hag : isAsyncGen op.responses = false := by
+      unfold isAsyncGen
+      rw [hres]
+      rfl
+    unfold handle
+    cases t <;> simp [hm, hb, hact, runAction, hag]
+  · cases hst : (resolveStrategy op.responses).isStreaming with
+    | true =>
+      have hact : selectAction op.responses r.status = .retStreamEnd := by
+        rw [hsel, if_neg hp, hst]
+        simp [secondaryAction, hc]
+      unfold handle
+      cases t <;> simp [hm, hb, hact, runAction]
+    | false =>
+      have hact : selectAction op.responses r.status = .retNone := by
+        rw [hsel, if_neg hp, hst]
+        simp [secondaryAction, hc]
+      have hag : isAsyncGen op.responses = false := by
+        unfold isAsyncGen
+        rw [hst]
+        rfl
+      unfold handle
+      cases t <;> simp [hm, hb, hact, runAction, hag]
 
 example : handle .bundled
     ⟨"DELETE".toList, [.lit "/a".toList], [], none, [⟨.num 200, [⟨mtJson, .int⟩]⟩, ⟨.num 204, []⟩]⟩ ⟨204, none⟩
       = .returned .none := by decide +kernel
 
+/-- `GET /events`: 200 is an event stream of `Event`s, 201 a `Created` document, 204 nothing. -/
+def exStreamTwo : Op :=
+  ⟨"GET".toList, [.lit "/events".toList], [], none,
+   [⟨.num 200, [⟨"text/event-stream".toList, .model "Event".toList⟩]⟩, ⟨.num 201, [⟨mtJson, .model "Created".toList⟩]⟩,
+    ⟨.num 204, []⟩]⟩
+
+/-- F35 repaired, the response without content of a streaming method: the stream ends without an item. -/
+theorem no_content_ends_stream (t : TransportKind) (op : Op) (r : Reply) (hm : moduleOk op = true)
+    (hnd : (op.responses.map (·.key)).Nodup) (h2 : 200 ≤ r.status ∧ r.status < 300)
+    (x : Resp) (hx : x ∈ op.responses) (hk : x.key = .num r.status) (hc : x.content = [])
+    (hag : isAsyncGen op.responses = true) :
+    handle t op r = .returned .streamEnd := by
+  rw [no_content_returns_none t op r hm hnd h2 x hx hk hc, hag]
+  rfl
+
+example : moduleOk exStreamTwo = true ∧ (exStreamTwo.responses.map (·.key)).Nodup ∧ isAsyncGen exStreamTwo.responses = true ∧
+    handle .passthrough exStreamTwo ⟨204, none⟩ = .returned .streamEnd := by decide +kernel
+
 /-- Every declared 2xx response that is not the primary one has an arm of its own, whose return is chosen from
-    ITS schema (`return None` without content). -/
+    ITS schema (`return None` without content) and written by `_write_secondary_return` (`secondaryAction`: `return <value>`,
+    or — in a streaming method, F35 repaired — `yield <value>` and a bare `return`). -/
 theorem secondary_2xx_arm_exists (op : Op) (r : Reply)
     (hnd : (op.responses.map (·.key)).Nodup) (h2 : 200 ≤ r.status ∧ r.status < 300)
     (x : Resp) (hx : x ∈ op.responses) (hk : x.key = .num r.status) (hnp : isPrimaryArm op.responses x = false) :
-    selectAction op.responses r.status =
-      (if x.content.isEmpty then Action.retNone else Action.retSecondary (secondaryRet x)) := by
+    selectAction op.responses r.status = secondaryAction (resolveStrategy op.responses).isStreaming x ∧
+    secondaryAction false x = (if x.content.isEmpty then Action.retNone else Action.retSecondary (secondaryRet x)) ∧
+    secondaryAction true x = (if x.content.isEmpty then Action.retStreamEnd else Action.yieldSecondary (secondaryRet x)) := by
+  refine ⟨?_, rfl, rfl⟩
   rw [select_declared_2xx op.responses r.status h2 hnd x hx hk, hnp]
   rfl
+
+/-- C05 for a 2xx response WITH content next to a streamed primary response (F35 repaired): the method is an async
+    generator, the arm `yield`s the value a non-streaming method would have returned (chosen from ITS schema:
+    `secondaryRet`) as the only item and returns — the call never fails with `NameError`, and the module imports
+    (`hm` no longer excludes this shape, `stream_with_second_2xx_module_ok`). -/
+theorem secondary_2xx_of_stream_yields_once (t : TransportKind) (op : Op) (r : Reply) (hm : moduleOk op = true)
+    (hnd : (op.responses.map (·.key)).Nodup) (h2 : 200 ≤ r.status ∧ r.status < 300)
+    (x : Resp) (hx : x ∈ op.responses) (hk : x.key = .num r.status) (hne : x.content ≠ [])
+    (hnp : isPrimaryArm op.responses x = false) (hst : (resolveStrategy op.responses).isStreaming = true) :
+    handle t op r = .returned (.yieldOnce (secondaryRet x)) := by
+  have hb : ¬ (r.status < 200 ∨ r.status ≥ 300) := by omega
+  have hemp : x.content.isEmpty = false := by
+    cases hc : x.content with
+    | nil => exact absurd hc hne
+    | cons _ _ => rfl
+  have hact : selectAction op.responses r.status = .yieldSecondary (secondaryRet x) := by
+    rw [select_declared_2xx op.responses r.status h2 hnd x hx hk, hnp, hst]
+    simp [secondaryAction, hemp]
+  have hret : (selectAction op.responses r.status).isReturn = true := by rw [hact]; rfl
+  obtain ⟨k, hk'⟩ := runAction_returns (r := r) hret
+  have hrun : runAction op.responses r (selectAction op.responses r.status) = .returned (.yieldOnce (secondaryRet x)) := by
+    rw [hact] at hk' ⊢
+    simp only [runAction, returnOf] at hk' ⊢
+    split at hk'
+    · cases hk'
+    · next hn => rw [if_neg hn]
+  unfold handle
+  cases t <;> simp [hm, hb, hrun]
+
+example :
+    let x : Resp := ⟨.num 201, [⟨mtJson, .model "Created".toList⟩]⟩
+    moduleOk exStreamTwo = true ∧ (exStreamTwo.responses.map (·.key)).Nodup ∧ x ∈ exStreamTwo.responses ∧
+    isPrimaryArm exStreamTwo.responses x = false ∧ (resolveStrategy exStreamTwo.responses).isStreaming = true ∧
+    handle .bundled exStreamTwo ⟨201, none⟩ = .returned (.yieldOnce (.structure (.model "Created".toList))) := by
+  decide +kernel
 
 /-- `POST /jobs`: 200 returns a `Job`, 202 an `Accepted`. -/
 def exTwo : Op :=
@@ -142,12 +223,15 @@ example : isPrimaryArm exTwo.responses ⟨.num 202, [⟨mtJson, .model "Accepted
 /-- C05 "text responses return the text sent" (F32b repaired): a declared 2xx response whose media types are all
     `text/*`, each with a plain string schema, is returned as `response.text` — whether it is the primary response
     (one media type or several) or has an arm of its own.  A primary response that is STREAMED (`text/event-stream`)
-    is an async iterator instead, hence `hns`.  Before the repair both arms were `cast(str, response.json())`. -/
+    is an async iterator instead, hence `hns`; next to a streamed primary response the arm of another 2xx response yields
+    the text once instead (`secondary_2xx_of_stream_yields_once`), hence `hst`.  Before the repair both arms were
+    `cast(str, response.json())`. -/
 theorem text_response_returns_text (t : TransportKind) (op : Op) (r : Reply) (hm : moduleOk op = true)
     (hnd : (op.responses.map (·.key)).Nodup) (h2 : 200 ≤ r.status ∧ r.status < 300)
     (x : Resp) (hx : x ∈ op.responses) (hk : x.key = .num r.status) (hne : x.content ≠ [])
     (htx : x.content.all (fun m => isTextCt m.mt) = true) (hsh : ∀ m ∈ x.content, m.shape = .string)
-    (hns : isPrimaryArm op.responses x = true → respStream x = false) :
+    (hns : isPrimaryArm op.responses x = true → respStream x = false)
+    (hst : isPrimaryArm op.responses x = false → (resolveStrategy op.responses).isStreaming = false) :
     handle t op r = .returned .text := by
   have hsel := select_declared_2xx op.responses r.status h2 hnd x hx hk
   have hb : ¬ (r.status < 200 ∨ r.status ≥ 300) := by omega
@@ -164,8 +248,8 @@ theorem text_response_returns_text (t : TransportKind) (op : Op) (r : Reply) (hm
       | nil => exact absurd hc hne
       | cons _ _ => rfl
     have hact : selectAction op.responses r.status = .retSecondary .text := by
-      rw [hsel, if_neg hp, hemp, secondaryRet_text hne htx hsh]
-      rfl
+      rw [hsel, if_neg hp, hst (by simpa using hp)]
+      simp [secondaryAction, hemp, secondaryRet_text hne htx hsh]
     unfold handle
     cases t <;> simp [hm, hb, hact, runAction, returnOf, RetKind.needsStructure]
 
@@ -178,6 +262,7 @@ def exText : Op :=
 /-- The hypotheses of `text_response_returns_text` are satisfiable by an arm that is not the primary one and by a primary one. -/
 example : moduleOk exText = true ∧ (exText.responses.map (·.key)).Nodup ∧
     isPrimaryArm exText.responses ⟨.num 203, [⟨"text/plain".toList, .string⟩, ⟨"text/html".toList, .string⟩]⟩ = false ∧
+    (resolveStrategy exText.responses).isStreaming = false ∧
     handle .passthrough exText ⟨203, some "text/html".toList⟩ = .returned .text := by decide +kernel
 
 example :
@@ -285,15 +370,22 @@ theorem secondary_2xx_ignores_content_type_counterexample :
     handle .passthrough op ⟨201, some "application/json".toList⟩ = .returned (.structure (.model "Created".toList)) := by
   decide +kernel
 
-/-- ✗ C05: a streaming primary response together with any other numeric 2xx response puts `yield` and
-    `return <value>` into one function — `SyntaxError: 'return' with value in async generator`; the whole
-    endpoints package fails to import. -/
-theorem stream_with_second_2xx_breaks_module_counterexample :
+/-- F35 repaired: whether the emitted module imports no longer depends on the responses at all (before the repair a
+    streaming primary response next to another numeric 2xx response put `yield` and `return <value>` into one function —
+    `SyntaxError: 'return' with value in async generator`, the whole endpoints package failed to import). -/
+theorem stream_with_second_2xx_module_ok (op : Op) (rs : List Resp) :
+    moduleOk { op with responses := rs } = moduleOk op := rfl
+
+/-- The former witness of F35 — an event stream next to a 204 — imports: 200 is still iterated with the SSE parser, 204
+    ends the stream without an item; a 201 with a JSON body beside them (`exStreamTwo`) yields the decoded `Created` once. -/
+theorem stream_with_second_2xx_former_witness :
     let op : Op := ⟨"GET".toList, [.lit "/events".toList], [], none,
       [⟨.num 200, [⟨"text/event-stream".toList, .model "Event".toList⟩]⟩, ⟨.num 204, []⟩]⟩
-    moduleOk op = false ∧ handle .bundled op ⟨200, none⟩ = .moduleError ∧
-    handle .bundled { op with responses := [⟨.num 200, [⟨"text/event-stream".toList, .model "Event".toList⟩]⟩] }
-      ⟨200, none⟩ = .returned .streamSse := by
+    moduleOk op = true ∧ handle .bundled op ⟨200, none⟩ = .returned .streamSse ∧
+    handle .bundled op ⟨204, none⟩ = .returned .streamEnd ∧
+    handle .bundled exStreamTwo ⟨200, none⟩ = .returned .streamSse ∧
+    handle .bundled exStreamTwo ⟨201, none⟩ = .returned (.yieldOnce (.structure (.model "Created".toList))) ∧
+    handle .bundled exStreamTwo ⟨204, none⟩ = .returned .streamEnd := by
   decide +kernel
 
 end Pog.C05
